@@ -496,7 +496,7 @@ SPEC_STMT = r"""
         stmt is While ==> (out(r), final(scopes).world()) == spec_stmt(old(scopes).world(), *stmt), // [C07_C16:while_rechecks_condition_each_trip_the_condition_is_checked_to_be_bool_and_break_continue_return_reach_their_target]
         stmt is For ==> (out(r), final(scopes).world()) == spec_stmt(old(scopes).world(), *stmt), // [C07_C16_C20:for_walks_the_entry_snapshot_in_order_binds_its_target_on_every_trip_and_break_continue_return_reach_their_target]
         (stmt is Break || stmt is Continue || stmt is Return) ==> (out(r), final(scopes).world()) == spec_stmt(old(scopes).world(), *stmt), // [C07:break_continue_return_signal_with_their_own_position_and_value]
-        (stmt is Expr || stmt is Declare || stmt is Assign || stmt is OpAssign) ==> (out(r), final(scopes).world()) == spec_stmt(old(scopes).world(), *stmt), // [C07:simple_statement_completes_or_fails_and_never_signals]
+        (stmt is Expr || stmt is Declare || stmt is Assign || stmt is OpAssign) ==> (out(r), final(scopes).world()) == spec_stmt(old(scopes).world(), *stmt), // [C07_C20:simple_statement_completes_or_fails_and_never_signals_and_a_declaration_or_assignment_always_goes_through_the_binder]
         stmt is Func ==> (out(r), final(scopes).world()) == spec_stmt(old(scopes).world(), *stmt), // [C07_C13_C20:a_function_declaration_validates_all_its_parameters_then_declares_the_name_and_never_signals]
         (out(r), final(scopes).world()) == spec_stmt(old(scopes).world(), *stmt), // [C07:statement_signal_is_the_documented_one]
         for_iter_error_at(old(scopes).world(), *stmt, r), // [C16_C17_C18:a_for_over_a_non_iterable_is_reported_at_the_iterator_expression]
